@@ -318,15 +318,15 @@ def r4_effects(ctx, reg: dict[str, str]) -> None:
             r.ok("C03.R4", q, "values returned unchanged", f.loc)
     ctor = {  # modifier → returned expression
         "SigmaCaseSensitiveModifier": "SigmaCasedString.from_sigma_string(val)", "SigmaCIDRModifier": "SigmaCIDRExpression(str(val), source=self.source)",
-        "SigmaCompareModifier": "SigmaCompareExpression(val, self.op, self.source)", "SigmaFieldReferenceModifier": "SigmaFieldReference(val.to_plain())",
+        "SigmaCompareModifier": "SigmaCompareExpression(val, self.op, self.source)", "SigmaFieldReferenceModifier": ("SigmaFieldReference(val.to_plain(True))", "SigmaFieldReference(val.to_plain(regex=True))"),  # the characters of the value (C05.R9), not its escaped source form
         "SigmaExistsModifier": "SigmaExists(val.boolean)", "SigmaRegularExpressionModifier": "SigmaRegularExpression(val.original)",
         "SigmaTimestampModifier": "SigmaTimestampPart(self.time_part_unit, int(val.number))", "SigmaExpandModifier": "val.insert_placeholders()",
     }
     for cn, want in ctor.items():
         f = prog.func(f"{M}.{cn}.modify")
         rets = [unparse(x.value) for x in walk_no_nested(f.node) if isinstance(x, ast.Return)]
-        if rets == [want]:
-            r.ok("C03.R4", f.qual, f"returns {want}", f.loc)
+        if (rets == [want]) if isinstance(want, str) else (len(rets) == 1 and rets[0] in want):
+            r.ok("C03.R4", f.qual, f"returns {rets[0]}", f.loc)
         else:
             r.violation("C03.R4", f.qual, f"returns {rets}", f"type-changing modifier must return {want} (content of the value unchanged)", f.loc)
     f = prog.func(M + ".SigmaRegularExpressionFlagModifier.modify")
